@@ -209,7 +209,91 @@ def cfg_C10(tier, rng):
                              family=lambda r, kk: gc.family_f3(r, kk, nmin=5, nmax=8)))]
 
 
-CONFIGS = {'C08': cfg_C08, 'C09': cfg_C09, 'C10': cfg_C10, 'C01': cfg_C01, 'C02': cfg_C02, 'C03': cfg_C03, 'C04': cfg_C04, 'C05': cfg_C05,
+def mixed_family(tier, rng, small=60, big=30):
+    f = _sub(gc.family_f1(4), small if tier == QUICK else small * 8, rng)
+    f += gc.family_f2(rng, big if tier == QUICK else big * 8)
+    f += gc.family_nested(rng, big // 2 if tier == QUICK else big * 4)
+    f += gc.family_hist(rng, big // 2 if tier == QUICK else big * 4)
+    return f
+
+
+def cfg_C07(tier, rng):
+    charts = thin(mixed_family(tier, rng), rng, 8)
+    rd = dict(count=100 if tier == QUICK else 1000, length=14,
+              family=lambda r, kk: gc.family_f3(r, kk, nmin=5, nmax=9))
+    return [dict(name='declaration', charts=charts,
+                 consts=dict(MaxQ=1, MaxLevel=5 if tier == QUICK else 7),
+                 variants=[dict(variant='api', seed=1, twin=dict(rel='variant', kw=dict(variant='ryaml'))),
+                           dict(variant='api_edit', seed=2, twin=dict(rel='variant', kw=dict(variant='yaml'))),
+                           dict(variant='api_reversed', twin=dict(rel='variant', kw=dict(variant='api', seed=3)))],
+                 random=rd),
+            dict(name='hashseed', charts=charts[:len(charts) // 2],
+                 consts=dict(MaxQ=1, MaxLevel=5 if tier == QUICK else 6),
+                 variants=[dict(variant='api', pool='unicode')],
+                 other_process=[1, 2] if tier == QUICK else [1, 2, 3, 12345, 99],
+                 random=rd)]
+
+
+def cfg_C11b(tier, rng):
+    charts = thin(mixed_family(tier, rng), rng, 8)
+    return dict(name='reimport', charts=charts,
+                consts=dict(MaxQ=1, MaxLevel=5 if tier == QUICK else 7),
+                variants=[dict(variant='api', seed=4, twin=dict(rel='reimport', kw=dict(reimport=True))),
+                          dict(variant='api_edit', pool='quote', twin=dict(rel='reimport', kw=dict(reimport=True)))],
+                random=dict(count=100 if tier == QUICK else 1000, length=14,
+                            family=lambda r, kk: gc.family_f3(r, kk, nmin=5, nmax=9, contracts=True)))
+
+
+def cfg_C17r(tier, rng):
+    charts = thin(mixed_family(tier, rng), rng, 8)
+    for c in charts:          # internal transitions matter (D7)
+        srcs = [s for s in range(1, c['n'] + 1) if c['kind'][s - 1] in gc.TRANS_KINDS]
+        ev = max(c['events'])
+        c['trans'].append(gc.mk_trans(rng.choice(srcs), 0, ev))
+        c['events'].append(ev + 1)
+    return dict(name='rename', charts=charts,
+                consts=dict(MaxQ=1, MaxLevel=5 if tier == QUICK else 7),
+                variants=[dict(variant='api', seed=6, twin=dict(rel='rename', kw=dict(rename=11))),
+                          dict(variant='yaml', twin=dict(rel='rename', kw=dict(rename=12)))],
+                random=dict(count=100 if tier == QUICK else 1000, length=14,
+                            family=lambda r, kk: no_active(gc.family_f3(r, kk, nmin=5, nmax=9))))
+
+
+def no_active(charts):
+    """active('name') guards embed a state name in a code string, which rename_state cannot follow."""
+    for c in charts:
+        for t in c['trans']:
+            if t['gk'] == 'active':
+                t['gk'], t['ga'] = ('oracle', 0)
+    return charts
+
+
+def cfg_C18(tier, rng):
+    k = 14 if tier == QUICK else 100
+    charts = gc.family_f3(rng, k, nmin=3, nmax=6, tmin=3, tmax=6, nev=2, max_oracle=1, contracts=True)
+    charts += with_contracts(thin(gc.family_hist(rng, k // 2, nmin=5, nmax=7), rng, 6), rng)
+
+    def jobs_for(ci, h, r):
+        n = len(h)
+        if n < 2:
+            return []
+        ats = {n - 1}
+        if n > 2:
+            ats.add(r.randint(1, n - 2))
+        return [dict(variant='api', fork=dict(at=a, mode=('pickle', 'deepcopy')[(a + n + i) % 2]))
+                for i, a in enumerate(sorted(ats))]
+    return [dict(name='fork', charts=charts,
+                 consts=dict(MaxQ=1, MaxClk=2, Delays={0, 1}, Advances={1}, MaxLevel=5 if tier == QUICK else 6),
+                 jobs_for=jobs_for, variants=[dict(variant='api')],
+                 random=dict(count=200 if tier == QUICK else 2000, length=16, delays=(0, 1, 2), advances=(1, 2),
+                             family=lambda r, kk: gc.family_f3(r, kk, nmin=5, nmax=8, contracts=True)))]
+
+
+def cfg_C17(tier, rng):
+    return [cfg_C17r(tier, rng)]
+
+
+CONFIGS = {'C17': cfg_C17, 'C07': cfg_C07, 'C18': cfg_C18, 'C08': cfg_C08, 'C09': cfg_C09, 'C10': cfg_C10, 'C01': cfg_C01, 'C02': cfg_C02, 'C03': cfg_C03, 'C04': cfg_C04, 'C05': cfg_C05,
            'C06': cfg_C06, 'C13': cfg_C13}
 
 
@@ -239,6 +323,10 @@ def run_stage(prop, tier, seed, stage, rng):
     jobs = []
     for e in mc['edges'] + mc['viols']:
         h = engine.norm_hist(e['hist'])
+        if stage.get('jobs_for'):
+            for kw in stage['jobs_for'](e['ci'], h, rng):
+                jobs.append((e['ci'], h, kw, False))
+            continue
         for kw in stage['variants']:
             jobs.append((e['ci'], h, dict(kw), False))
     nedge_jobs = len(jobs)
@@ -255,6 +343,11 @@ def run_stage(prop, tier, seed, stage, rng):
                                       advances=rd.get('advances', ()), params=rd.get('params', (0,)),
                                       maxq=rd.get('maxq', 3), pfail=rd.get('pfail', 0.0),
                                       pmfail=rd.get('pmfail', 0.0))
+            if stage.get('jobs_for'):
+                kws = stage['jobs_for'](ci, h, rng)
+                if kws:
+                    jobs.append((ci, h, kws[0], True))
+                continue
             jobs.append((ci, h, dict(stage['variants'][i % len(stage['variants'])]), True))
     t1 = time.time()
     traces = engine.replay(allcharts, jobs)
@@ -262,6 +355,14 @@ def run_stage(prop, tier, seed, stage, rng):
     errs = [t for t in traces if t.get('error')]
     if errs:
         raise Machinery('replay failed: ' + errs[0]['error'])
+    for hs in stage.get('other_process', []):
+        tb = engine.replay_other_process(allcharts, jobs, hs, mc['dir'])
+        ta = json.loads(json.dumps(traces[:len(tb)]))
+        engine.attach_refs(ta, tb, 'variant')
+        for i, t in enumerate(ta):
+            t['kw'] = dict(t['kw'], hashseed=hs)
+            t['id'] = 10 ** 7 * (1 + stage['other_process'].index(hs)) + i
+        traces += ta
     reports, st = engine.trace_check(name, allcharts, traces)
     out.update(trace_wall_s=st['wall_s'], trace_states=st['states'], trace_cmd=st['cmd'],
                traces=len(traces), edge_traces=nedge_jobs, random_traces=len(traces) - nedge_jobs,
